@@ -259,6 +259,19 @@ func familyStream(weights map[string]int, hostile bool, quickN, thoroughN, lengt
 				if g.chance(0.1) {
 					ops = append(ops, g.observeAll(1)...)
 				}
+				if g.chance(0.08) {
+					// a key that is gone but still stored (UNLINK only moves the deadline into the past; nothing sweeps):
+					// the next commands of the family must treat it as missing
+					k := g.key()
+					old := g.focus
+					g.focus = k
+					ops = append(ops, mkOp(1, "UNLINK", k))
+					for x := 0; x < 1+g.r.Intn(2); x++ {
+						ops = append(ops, g.fromFamilies(1, weights))
+					}
+					ops = append(ops, mkOp(1, "TYPE", k), mkOp(1, "TTL", k))
+					g.focus = old
+				}
 				if weights["string"] >= 10 && g.chance(0.06) {
 					ops = append(ops, g.counterBoundary(1)...)
 				}
